@@ -2953,7 +2953,17 @@ pub fn fuzz_oracle(target: Target, data: &[u8]) {
     let c = TotCase { target, origin: Origin::Arbitrary, bytes: data.to_vec() };
     if let Verdict::Fail { sig, msg } = case_total(&c).verdict {
         if !known.iter().any(|k| *k == sig) {
-            panic!("C10 violation {sig}\n{msg}\nreplay scenario: {}", serde_json::to_string(&c).unwrap_or_default());
+            // leave a replay file that `qv c10 --replay` understands, then abort so that libFuzzer
+            // saves the raw input as well
+            let scenario = serde_json::to_value(&c).unwrap_or(serde_json::Value::Null);
+            let h = hash64(&scenario.to_string()) & 0xffff_ffff_ffff;
+            let dir = std::path::PathBuf::from(verif_root()).join("replays");
+            let _ = std::fs::create_dir_all(&dir);
+            let path = dir.join(format!("C10-fuzz-{h:012x}.json"));
+            let f = Failure { property: "C10".into(), check: "c10g_total".into(), sig: sig.clone(), msg: msg.clone(), scenario };
+            let _ = std::fs::write(&path, serde_json::to_string_pretty(&f).unwrap_or_default());
+            println!("VIOLATION property=C10 replay={}", path.display());
+            panic!("C10 violation {sig}\n{msg}\nreplay: {}", path.display());
         }
     }
 }
